@@ -52,6 +52,7 @@ def step (l : Line) : Verdict :=
       if !wellFormed cfg then .bad "the generated configuration does not fit the regenerated schema"
       else
         let res := l.impl.headD ""
+        if res.startsWith "PANIC" then .specFail "C14.panic" s!"loading the profile ({kind} at {path}) crashes: {res.take 160}" else
         let isOk := res.startsWith "ok:"
         let got := if isOk then sortStr (((res.drop 3).toString.splitOn ";").filter (· ≠ "-")) else []
         -- what the fault makes of the configuration
